@@ -17,8 +17,8 @@ import (
 func init() {
 	register(Property{ID: "C03", Level: "proof", Run: runC03,
 		Technique: "static analysis: whole-program who-may/enumeration of PathAccessRequest constructions and SkipAuth sites, must-pass-through path conditions on the path-manager handlers (go/ssa), AST origin classification of ConfToCompare",
-		Text: "Proof obligations over the whole module: (1) on every path of pathManager.doFindPathConf/doDescribe/doAddReader/doAddPublisher a success reply is sent only after conf.FindPathConf succeeded for the request's name and the auth manager admitted ToAuthRequest() of the same request (or SkipAuth), doAddPublisher additionally only if ConfToCompare is nil or Equal to the resolved conf; doFindPathConf never honours SkipAuth; (2) ToAuthRequest maps name/action/IP/credentials/query/protocol field by field; (3) (*path).describe/addReader/addPublisher are called only from the manager wrappers after a nil-error reply; (4) every SkipAuth:true site in the module (all build configurations that contain one) is classified: publisher sites carry a ConfToCompare that flows from the Conf of a FindPathConf(Publish:true) result, internal-reader sites are a frozen table, the CDN site is guarded by isCDN = secret configured ∧ bearer equality; any other site is a violation; (5) Publish constants match the manager call; (6) 'exactly that path and the matching action': in every boolean decision function that branches on the Path of an element of a []conf.AuthInternalUserPermission (auth.matchesPermission), no path test of an element leads to a return that may be true unless, in the same loop iteration, `thatElement.Action == request.Action` held - action and path are granted by ONE entry (decided on SSA with element identity = index value, through copies, pointers and extracted helpers). Obligations = sites x clauses.",
-		Note: "trusted: auth manager (C01/C02), gortsplib invariant announced path == rsession.Path()[1:], conf.Path.Equal = reflect.DeepEqual, go/ssa CFG construction; flow through struct fields is resolved per package over all stores/literal keys of that field (flow-insensitive)"})
+		Text:      "Proof obligations over the whole module: (1) on every path of pathManager.doFindPathConf/doDescribe/doAddReader/doAddPublisher a success reply is sent only after conf.FindPathConf succeeded for the request's name and the auth manager admitted ToAuthRequest() of the same request (or SkipAuth), doAddPublisher additionally only if ConfToCompare is nil or Equal to the resolved conf; doFindPathConf never honours SkipAuth; (2) ToAuthRequest maps name/action/IP/credentials/query/protocol field by field; (3) (*path).describe/addReader/addPublisher are called only from the manager wrappers after a nil-error reply; (4) every SkipAuth:true site in the module (all build configurations that contain one) is classified: publisher sites carry a ConfToCompare that flows from the Conf of a FindPathConf(Publish:true) result, internal-reader sites are a frozen table, the CDN site is guarded by isCDN = secret configured ∧ bearer equality; any other site is a violation; (5) Publish constants match the manager call; (6) 'exactly that path and the matching action': in every boolean decision function that branches on the Path of an element of a []conf.AuthInternalUserPermission (auth.matchesPermission), no path test of an element leads to a return that may be true unless, in the same loop iteration, `thatElement.Action == request.Action` held - action and path are granted by ONE entry (decided on SSA with element identity = index value, through copies, pointers and extracted helpers). Obligations = sites x clauses.",
+		Note:      "trusted: auth manager (C01/C02), gortsplib invariant announced path == rsession.Path()[1:], conf.Path.Equal = reflect.DeepEqual, go/ssa CFG construction; flow through struct fields is resolved per package over all stores/literal keys of that field (flow-insensitive)"})
 	addMutants(
 		Mutant{"C03", "drop-skipauth-guard-addreader", "internal/core/path_manager.go",
 			"	var user string\n\n	if !req.AccessRequest.SkipAuth {\n		var authErr *auth.Error\n		user, authErr = pm.authManager.Authenticate(req.AccessRequest.ToAuthRequest())\n		if authErr != nil {\n			req.Res <- defs.PathAddReaderRes{Err: authErr}\n			return\n		}\n	}",
@@ -277,7 +277,7 @@ func allFieldStores(fn *ssa.Function) []fstore {
 
 // internal-reader SkipAuth sites: no network client is behind them.
 var internalReaderSites = map[string]string{
-	"internal/servers/hls|muxer.runInner":                "the HLS muxer's own reader; its media leaves the server only through muxer.handleRequest, guarded by C43",
+	"internal/servers/hls|muxer.runInner":                    "the HLS muxer's own reader; its media leaves the server only through muxer.handleRequest, guarded by C43",
 	"internal/staticsources/rpicamera|Source.waitForPrimary": "rpicamera secondary stream reads the primary stream of the same configuration (no client)",
 }
 
